@@ -124,10 +124,7 @@ func (x *c04) isPteWrite(g *IG, n int, pte ssa.Value) (string, bool) {
 func (x *c04) leafEdge(g *IG, w *ssa.Function) (Edge, bool) {
 	lvl := paramNamed(w, "pteLevel")
 	for _, f := range g.AllEdgeFacts() {
-		if cmpMatch(f, token.EQL, func(v ssa.Value) bool { return lvl != nil && stripConv(v) == ssa.Value(lvl) }, func(v ssa.Value) bool {
-			k, ok := constUint64(v)
-			return ok && k == x.levels-1
-		}) {
+		if lvl != nil && eqConstFact(f, lvl, int64(x.levels)-1) {
 			return f.Edge, true
 		}
 	}
@@ -694,7 +691,7 @@ func stripConvShift(v ssa.Value) ssa.Value {
 	v = stripConv(v)
 	for i := 0; i < 3; i++ {
 		b, ok := v.(*ssa.BinOp)
-		if !ok || (b.Op != token.SHR && b.Op != token.AND && b.Op != token.AND_NOT) {
+		if !ok || (b.Op != token.SHR && b.Op != token.AND && b.Op != token.AND_NOT && b.Op != token.QUO) {
 			break
 		}
 		if _, ok := constUint64(b.Y); !ok {
